@@ -5,7 +5,8 @@ open Lean Molgri.Drv
 namespace Molgri.Drv.C13
 open Molgri.Merge
 
-def matJ (A : Mat) : Json := listJ (listJ intJ) A
+/-- the driver runs the model at `α := Int` -/
+def matJ (A : Mat Int) : Json := listJ (listJ intJ) A
 def groupsJ (g : Groups) : Json := listJ (listJ natJ) g
 
 def parseOp (j : Json) : R Op := do
@@ -16,7 +17,7 @@ def parseOp (j : Json) : R Op := do
   | _ => throw s!"bad op kind {k}"
 
 /-- runs a history and reports the state after every step; an error is reported with the step it occurred at -/
-def runTrace (s : State) : List Op → List Json → List Json
+def runTrace (s : State Int) : List Op → List Json → List Json
   | [], acc => acc.reverse
   | op :: ops, acc =>
     match step s op with
